@@ -66,13 +66,7 @@ class Plane:
             # never write into the caller's array
             mask = np.array(mask)
 
-        if mask.ndim == 0 and mask != 0:
-            # a scalar (amplitude or mask) that transmits everything, with a
-            # sampled amplitude or OPD: the plane has the shape of that array
-            if self._amplitude.ndim > 1:
-                mask = np.full(self._amplitude.shape, mask)
-            elif self._opd.ndim > 1:
-                mask = np.full(self._opd.shape, mask)
+        mask = _sample_scalar_mask(mask, self._amplitude, self._opd)
 
         mask[mask != 0] = 1
         if mask.ndim == 3:
@@ -118,6 +112,7 @@ class Plane:
     @amplitude.setter
     def amplitude(self, value):
         self._amplitude = np.asarray(value)
+        self._update_scalar_mask()
     
     @property
     def opd(self):
@@ -133,6 +128,15 @@ class Plane:
     @opd.setter
     def opd(self, value):
         self._opd = np.asarray(value)
+        self._update_scalar_mask()
+
+    def _update_scalar_mask(self):
+        # a plane whose mask is still a scalar (built without sampled attributes)
+        # takes the shape of a sampled amplitude or OPD it is given later
+        mask = _sample_scalar_mask(self._mask, self._amplitude, self._opd)
+        if mask is not self._mask:
+            self._mask = mask
+            self._slice = _plane_slice(self._mask)
 
     @property
     def mask(self):
@@ -504,6 +508,17 @@ class Plane:
                     out.data.append(field * phasor)
 
         return out
+
+
+def _sample_scalar_mask(mask, amplitude, opd):
+    # a scalar (amplitude or mask) that transmits everything, with a sampled
+    # amplitude or OPD: the plane has the shape of that array
+    if mask.ndim == 0 and mask != 0:
+        if amplitude.ndim > 1:
+            mask = np.full(amplitude.shape, mask)
+        elif opd.ndim > 1:
+            mask = np.full(opd.shape, mask)
+    return mask
 
 
 def _mul_pixelscale(a_pixelscale, b_pixelscale):
